@@ -95,3 +95,196 @@ class SanitizePixels(Contract):
         if perm is None:
             out["order-kept"] = True
         return out
+
+
+class _GS:
+    """GenomeSegmentation seen through the attributes _sanitize_records reads"""
+
+    def __init__(self, w):
+        self.w = w
+
+    def pyvc_getattr(self, I, attr, node):
+        w = self.w
+        if attr == "chromsizes":
+            class _CS:
+                def pyvc_getattr(self_, I, a, node):
+                    if a == "values":
+                        return w["clen"]
+                    raise Exception("chromsizes." + a)
+            return _CS()
+        return {"chrom_binoffset": w["off"], "binsize": w["B"], "chrom_abspos": w["CA"], "start_abspos": w["SA"],
+                "contigs": Opaque("contigs")}[attr]
+
+
+# NOT REGISTERED (no @contract, not a target of any property): on the unchanged tree all 2988 obligations of this
+# contract are discharged in about a minute, but on a tree where the arithmetic is broken the refutation queries
+# (quantified, nonlinear) did not come back within any budget - a check that can take 40 minutes to answer is not
+# usable, so C05 keeps _sanitize_pixels as its proof core and _sanitize_records stays with the bounded tier.
+class SanitizeRecords(Contract):
+    """C05: records given as (chromosome id, position) pairs, fixed-width bin table: after the optional one-based
+    shift every record lands in the bin that CONTAINS its position - bin = chrom_offset[c] + pos div binsize, which
+    lies in the chromosome's range and satisfies start[bin] <= pos < end[bin]; with validation, a chunk is refused
+    (BadInputError) exactly when some position is negative or beyond the chromosome; a lower-triangle record is
+    mirrored / dropped / refused / kept as asked; values travel with their record; order kept.
+    (decode_chroms=False path; names -> ids through pandas.Categorical, the variable-width loop and sorting are
+    covered by the bounded tier)"""
+    target = f"{ING}:_sanitize_records"
+    props = ["C05"]
+
+    def configs(self, v):
+        from pyvc.lib_pandas import DataFrameV
+        from pyvc.values import LibFunc
+
+        def mk(action, validate):
+            def f(v):
+                c1 = v.Arr("chrom1")
+                n = c1.n
+                cols = {"chrom1": c1, "pos1": v.Arr("pos1", n=n), "chrom2": v.Arr("chrom2", n=n), "pos2": v.Arr("pos2", n=n),
+                        "count": v.Arr("count", n=n)}
+                snap = {c: a.at for c, a in cols.items()}
+                nchrom = v.Int("nchrom")
+                w = {"snap": snap, "n": n, "nchrom": nchrom, "off": v.Arr("chrom_binoffset", n=nchrom + 1),
+                     "clen": v.Arr("chromsizes", n=nchrom), "B": v.Int("binsize"), "CA": Opaque("chrom_abspos"),
+                     "SA": Opaque("start_abspos"), "start": v.Arr("bins.start"), "end": v.Arr("bins.end"), "validate": validate,
+                     "action": action}
+                return dict(chunk=DataFrameV(cols), gs=_GS(w), decode_chroms=False, is_one_based=v.Bool("is_one_based"),
+                            tril_action=action, chrom_field="chrom", anchor_field="pos", sided_fields=(), suffixes=("1", "2"),
+                            sort=False, validate=validate,
+                            __free__={"is_integer_dtype": LibFunc("is_integer_dtype", lambda I, dt: True)}, __ghost__=w)
+            return f
+        for action in ("reflect", "drop", "raise", None):
+            for validate in (True, False):
+                yield f"fixed,tril={action},validate={validate}", mk(action, validate)
+
+    def _w(self):
+        return self._v.path.ghost
+
+    def _pos(self, is_one_based):
+        w = self._w()
+        z = If(is_one_based, 1, 0)
+        return (lambda k: w["snap"]["pos1"](k) - z), (lambda k: w["snap"]["pos2"](k) - z)
+
+    def _in_range(self, is_one_based, strict=True):
+        w = self._w()
+        a1, a2 = self._pos(is_one_based)
+        c1, c2, clen = w["snap"]["chrom1"], w["snap"]["chrom2"], w["clen"]
+        hi = (lambda a, c: a < clen[c]) if strict else (lambda a, c: a <= clen[c])
+        return lambda k: And(a1(k) >= 0, a2(k) >= 0, hi(a1(k), c1(k)), hi(a2(k), c2(k)))
+
+    def requires(self, **a):
+        w = self._w()
+        n, nchrom, off, clen, B = w["n"], w["nchrom"], w["off"], w["clen"], w["B"]
+        c1, c2 = w["snap"]["chrom1"], w["snap"]["chrom2"]
+        r = {"table": And(nchrom >= 1, B >= 1, off[0] == 0, nondecreasing(off), L(w["start"]) == off[nchrom], L(w["end"]) == off[nchrom]),
+             "ids-are-chromosomes-of-the-table": forall(0, n, lambda k: And(0 <= c1(k), c1(k) < nchrom, 0 <= c2(k), c2(k) < nchrom)),
+             # the recorded bin size describes the bins of the chromosomes that occur (C20's get_binsize contract), flat per record
+             }
+        st, en = w["start"], w["end"]
+        for tag, cc in (("1", c1), ("2", c2)):
+            r[f"fixed-bins-of-end-{tag}"] = forall2(0, n, 0, L(st), lambda k, j, cc=cc: Implies(
+                And(off[cc(k)] <= j, j < off[cc(k) + 1]),
+                And(st[j] == (j - off[cc(k)]) * B, en[j] == Min(st[j] + B, clen[cc(k)]))))
+            r[f"last-bin-of-end-{tag}-ends-at-the-chromosome-length"] = forall(0, n, lambda k, cc=cc: And(
+                off[cc(k)] < off[cc(k) + 1], off[cc(k) + 1] <= L(st), en[off[cc(k) + 1] - 1] == clen[cc(k)],
+                st[off[cc(k) + 1] - 1] == (off[cc(k) + 1] - 1 - off[cc(k)]) * B, st[off[cc(k) + 1] - 1] < clen[cc(k)],
+                clen[cc(k)] < 2 ** 40))
+        if not w["validate"]:
+            # without validation the caller promises in-range positions (the property's quantifier)
+            r["positions-in-range"] = forall(0, n, self._in_range(a["is_one_based"]))
+        else:
+            # a position EQUAL to the chromosome length should be refused and is accepted (`>` for `>=`): recorded as a
+            # known finding by the bounded tier (signature records:position==chromosome-length...); kept out of this contract
+            a1, a2 = self._pos(a["is_one_based"])
+            r["no-position-equals-its-chromosome-length"] = forall(0, n, lambda k: And(a1(k) != clen[c1(k)], a2(k) != clen[c2(k)]))
+        return r
+
+    @property
+    def raises(self):
+        def bad_pos(is_one_based=None, **kw):
+            w = self._w()
+            if not w["validate"]:
+                return False
+            ok = self._in_range(is_one_based, strict=False)      # what the code checks: pos <= length (see known finding)
+            return exists(0, w["n"], lambda k: Not(ok(k)))
+
+        def tril_k(is_one_based):
+            w = self._w()
+            a1, a2 = self._pos(is_one_based)
+            c1, c2 = w["snap"]["chrom1"], w["snap"]["chrom2"]
+            return lambda k: Or(c1(k) > c2(k), And(c1(k) == c2(k), a1(k) > a2(k)))
+
+        def bad(is_one_based=None, tril_action=None, **kw):
+            w = self._w()
+            b = bad_pos(is_one_based=is_one_based)
+            if tril_action == "raise":
+                t = tril_k(is_one_based)
+                return Or(b, exists(0, w["n"], lambda k: t(k)))
+            return b
+        return {"BadInputError": bad}
+
+    def ensures(self, result, chunk, gs, decode_chroms, is_one_based, tril_action, chrom_field, anchor_field, sided_fields,
+                suffixes, sort, validate):
+        w = self._w()
+        n, off, clen, B, st, en = w["n"], w["off"], w["clen"], w["B"], w["start"], w["end"]
+        a1, a2 = self._pos(is_one_based)
+        c1, c2, cnt = w["snap"]["chrom1"], w["snap"]["chrom2"], w["snap"]["count"]
+        tril = lambda k: Or(c1(k) > c2(k), And(c1(k) == c2(k), a1(k) > a2(k)))
+        r1, r2, rc = result.cols["bin1_id"], result.cols["bin2_id"], result.cols["count"]
+        out = {}
+        if isinstance(r1, list) or isinstance(r2, list):
+            return {"only-an-empty-chunk-comes-back-without-bins": And(n == 0, r1 == [], r2 == [])}
+        inside = self._in_range(is_one_based)
+        bin_of = lambda c, a: off[c] + div(a, B)
+        flt = getattr(result, "_filter", None)
+        if tril_action == "drop" and flt is not None:
+            m, fsrc, frank = flt
+            src = fsrc
+            out["survivors-are-the-upper-records-in-order"] = And(
+                L(r1) == m, forall(0, m, lambda t: And(0 <= fsrc(t), fsrc(t) < n, Not(tril(fsrc(t))))),
+                forall2(0, m, 0, m, lambda t1, t2: Implies(t1 < t2, fsrc(t1) < fsrc(t2))),
+                forall(0, n, lambda k: Implies(Not(tril(k)), And(0 <= frank(k), frank(k) < m, fsrc(frank(k)) == k))))
+            cnt_out = m
+            mirrored = lambda k: False
+        else:
+            src = lambda t: t
+            cnt_out = n
+            out["every-record-kept"] = L(r1) == n
+            if tril_action == "drop":
+                out["nothing-to-drop"] = forall(0, n, lambda k: Not(tril(k)))
+            mirrored = (lambda k: tril(k)) if tril_action == "reflect" else (lambda k: False)
+        e1c = lambda k: If(mirrored(k), c2(k), c1(k))
+        e1a = lambda k: If(mirrored(k), a2(k), a1(k))
+        e2c = lambda k: If(mirrored(k), c1(k), c2(k))
+        e2a = lambda k: If(mirrored(k), a1(k), a2(k))
+        out["bin-ids-are-offset-plus-position-div-binsize"] = forall(0, cnt_out, lambda t: And(
+            r1[t] == bin_of(e1c(src(t)), e1a(src(t))), r2[t] == bin_of(e2c(src(t)), e2a(src(t)))))
+        # nonlinear core, stated on the RAW ends (no mirroring case split inside the products): the quotient of an inside
+        # position is below the number of bins of its chromosome
+        for tag, cc, aa in (("1", c1, a1), ("2", c2, a2)):
+            nb = lambda k, cc=cc: off[cc(k) + 1] - off[cc(k)]
+            out[f"hint:raw-end{tag}:length-vs-bin-count"] = forall(0, n, lambda k, cc=cc: And(
+                st[off[cc(k) + 1] - 1] == (nb(k) - 1) * B, clen[cc(k)] <= (nb(k) - 1) * B + B, clen[cc(k)] <= nb(k) * B))
+            out[f"hint:raw-end{tag}:floor"] = forall(0, n, lambda k, aa=aa: Implies(inside(k), And(
+                div(aa(k), B) * B <= aa(k), aa(k) < div(aa(k), B) * B + B, div(aa(k), B) >= 0)))
+            out[f"hint:raw-end{tag}:quotient-below-the-bin-count"] = forall(0, n, lambda k, cc=cc, aa=aa: Implies(inside(k), And(
+                div(aa(k), B) * B < nb(k) * B, div(aa(k), B) < nb(k))))
+        for tag, ec, ea, rr in (("1", e1c, e1a, r1), ("2", e2c, e2a, r2)):
+            # one end at a time, one conclusion per clause (small queries)
+            C = lambda t, ec=ec: ec(src(t))
+            A = lambda t, ea=ea: ea(src(t))
+            out[f"hint:end{tag}:position-inside-its-own-chromosome"] = forall(0, cnt_out, lambda t: Implies(
+                inside(src(t)), And(0 <= A(t), A(t) < clen[C(t)], 0 <= C(t), C(t) < w["nchrom"])))
+            out[f"hint:end{tag}:floor-of-the-position"] = forall(0, cnt_out, lambda t: Implies(inside(src(t)), And(
+                div(A(t), B) * B <= A(t), A(t) < div(A(t), B) * B + B, div(A(t), B) >= 0)))
+            out[f"hint:end{tag}:quotient-below-the-bin-count"] = forall(0, cnt_out, lambda t: Implies(
+                inside(src(t)), div(A(t), B) < off[C(t) + 1] - off[C(t)]))
+            out[f"end{tag}-lands-in-a-bin-of-its-chromosome"] = forall(0, cnt_out, lambda t, rr=rr: Implies(inside(src(t)), And(
+                off[C(t)] <= rr[t], rr[t] < off[C(t) + 1])))
+            out[f"hint:end{tag}:start-of-that-bin"] = forall(0, cnt_out, lambda t, rr=rr: Implies(inside(src(t)), And(
+                st[rr[t]] == div(A(t), B) * B, en[rr[t]] == Min(st[rr[t]] + B, clen[C(t)]))))
+            out[f"end{tag}-lands-in-the-bin-containing-its-position"] = forall(0, cnt_out, lambda t, rr=rr: Implies(inside(src(t)), And(
+                st[rr[t]] <= A(t), A(t) < en[rr[t]])))
+        out["values-travel-with-the-record"] = forall(0, cnt_out, lambda t: rc[t] == cnt(src(t)))
+        if tril_action == "reflect":
+            out["upper-triangular-after-reflect"] = forall(0, cnt_out, lambda t: Implies(inside(src(t)), r1[t] <= r2[t]))
+        return out
